@@ -578,7 +578,7 @@ func (s *Server) FastInvoke(w http.ResponseWriter, i *interop.Invoke, direct boo
 	go func() {
 		if s.invoker == nil {
 			// Reset occurred, do not send invoke request
-			s.InvokeDoneChan <- DoneWithState{State: s.InternalStateGetter()}
+			s.deliverInvokeDone(i, DoneWithState{State: s.InternalStateGetter()})
 			s.setRuntimeState(runtimeInvokeComplete)
 			return
 		}
@@ -604,13 +604,13 @@ func (s *Server) FastInvoke(w http.ResponseWriter, i *interop.Invoke, direct boo
 				s.trySendDefaultErrorResponse(i.ID, invokeFailure.DefaultErrorResponse)
 			}
 			doneFail := doneFailFromInvokeFailure(invokeFailure)
-			s.InvokeDoneChan <- DoneWithState{
+			s.deliverInvokeDone(i, DoneWithState{
 				Done:  &interop.Done{ErrorType: doneFail.ErrorType, Meta: doneFail.Meta},
 				State: s.InternalStateGetter(),
-			}
+			})
 		} else {
 			done := doneFromInvokeSuccess(invokeSuccess)
-			s.InvokeDoneChan <- DoneWithState{Done: done, State: s.InternalStateGetter()}
+			s.deliverInvokeDone(i, DoneWithState{Done: done, State: s.InternalStateGetter()})
 		}
 	}()
 
@@ -623,6 +623,24 @@ func (s *Server) FastInvoke(w http.ResponseWriter, i *interop.Invoke, direct boo
 	}
 
 	return nil
+}
+
+// deliverInvokeDone hands the result of a dispatched invoke to AwaitRelease, unless the
+// reservation it was dispatched for is being (or has been) reset: then nobody awaits it
+// any more, and a result left behind would complete the next invoke prematurely.
+func (s *Server) deliverInvokeDone(i *interop.Invoke, done DoneWithState) {
+	s.mutex.Lock()
+	defer s.mutex.Unlock()
+	if i.DispatchCtx != nil && i.DispatchCtx.Err() != nil {
+		log.Debugf("Dropping the result of invoke %s: its reservation was reset", i.ID)
+		return
+	}
+	select {
+	case s.InvokeDoneChan <- done:
+	default:
+		// the channel holds one result per dispatch; never block while holding the mutex
+		log.Warnf("Result of invoke %s not delivered: a result is already pending", i.ID)
+	}
 }
 
 func (s *Server) setCachedInitErrorResponse(errResp *interop.ErrorInvokeResponse) {
